@@ -7,6 +7,7 @@ import (
 	"fmt"
 	"os"
 	"path/filepath"
+	"regexp"
 	"sort"
 	"strings"
 	"time"
@@ -348,6 +349,32 @@ func c14Pathological() []*load.Case {
 	return out
 }
 
+var featureStmt = regexp.MustCompile(`feature\s+([A-Za-z_][A-Za-z0-9_.-]*)\s*[;{]`)
+
+// featureOptions derives non-default feature configurations from the features a
+// text declares: each one off alone, each one on alone, all off.
+func featureOptions(text string) []string {
+	var names []string
+	seen := map[string]bool{}
+	for _, m := range featureStmt.FindAllStringSubmatch(text, -1) {
+		if !seen[m[1]] && !strings.HasPrefix(m[0], "if-") {
+			seen[m[1]] = true
+			names = append(names, m[1])
+		}
+	}
+	if len(names) == 0 {
+		return nil
+	}
+	if len(names) > 4 {
+		names = names[:4]
+	}
+	out := []string{"on:"}
+	for _, n := range names {
+		out = append(out, "off:"+n, "on:"+n)
+	}
+	return out
+}
+
 func c14Cases(r *kit.Rng, tier string) ([]*load.Case, map[string]string) {
 	files, byDir := loadCorpus()
 	var cases []*load.Case
@@ -369,6 +396,13 @@ func c14Cases(r *kit.Rng, tier string) ([]*load.Case, map[string]string) {
 		c2.ID += "|perm"
 		c2.Order = load.OrderSpec{Mode: "perm", Seed: r.Uint64()}
 		add(&c2, "pathological")
+		// the same text under non-default feature configurations
+		for _, fo := range featureOptions(c.Main) {
+			c3 := *c
+			c3.ID += "|features=" + fo
+			c3.Features = fo
+			add(&c3, "pathological")
+		}
 	}
 	for _, c := range c14Matrix(thorough) {
 		add(c, "statement-placement-matrix")
@@ -395,6 +429,9 @@ func c14Cases(r *kit.Rng, tier string) ([]*load.Case, map[string]string) {
 		fs := byDir[f.dir]
 		add(&load.Case{ID: id + "|whole", Main: f.text, Files: fs, Order: load.OrderSpec{Mode: "sorted"}}, "corpus-whole")
 		add(&load.Case{ID: id + "|whole-by-name", MainName: f.name, Files: fs, Order: order()}, "corpus-whole")
+		for _, fo := range featureOptions(f.text) {
+			add(&load.Case{ID: id + "|features=" + fo, MainName: f.name, Files: fs, Order: order(), Features: fo}, "corpus-whole")
+		}
 		// prefixes
 		n := len(f.text)
 		var ks []int
@@ -597,6 +634,13 @@ func c14Batch(c *Check, tier string) int {
 		cases = append(cases, cs)
 		origin[cs.ID] = "generated-set"
 		wholeByName = append(wholeByName, cs)
+		if fo := featureOptions(ms.Files[ms.Main]); len(fo) > 0 {
+			c2 := *cs
+			c2.Features = fo[r.Intn(len(fo))]
+			c2.ID = fmt.Sprintf("gen|ms%d|features=%s", i, c2.Features)
+			cases = append(cases, &c2)
+			origin[c2.ID] = "generated-set"
+		}
 	}
 	for _, cs := range cases {
 		if strings.HasSuffix(cs.ID, "|whole-by-name") && !strings.HasPrefix(cs.ID, "gen|") {
